@@ -1454,3 +1454,39 @@ func (fi *FuncInfo) EdgeAtomsMatching(pred func(Atom) bool) []Atom {
 	}
 	return out
 }
+
+// LoopExit is an edge leaving the natural loop of a header, or a return /
+// panic inside the loop body.
+type LoopExit struct {
+	From *ssa.BasicBlock
+	To   *ssa.BasicBlock // nil for return/panic inside the loop
+	Atom Atom            // condition under which the exit edge is taken (HasAtom)
+	Has  bool
+	Term ssa.Instruction // the return/panic (To == nil)
+}
+
+// LoopExits lists every way control leaves the natural loop of header.
+func (fi *FuncInfo) LoopExits(header *ssa.BasicBlock) []LoopExit {
+	var out []LoopExit
+	for _, b := range fi.Fn.Blocks {
+		if b != header && !InLoop(header, b) {
+			continue
+		}
+		if len(b.Succs) == 0 && len(b.Instrs) > 0 {
+			out = append(out, LoopExit{From: b, Term: b.Instrs[len(b.Instrs)-1]})
+			continue
+		}
+		for i, s := range b.Succs {
+			if s == header || InLoop(header, s) {
+				continue
+			}
+			// a successor outside the loop: if it only returns/panics, report it as exit too
+			ex := LoopExit{From: b, To: s}
+			if a, ok := fi.EdgeAtom(Edge{b, i}); ok && len(b.Succs) == 2 {
+				ex.Atom, ex.Has = a, true
+			}
+			out = append(out, ex)
+		}
+	}
+	return out
+}
